@@ -87,7 +87,17 @@ pub fn run(ctx: &mut Ctx, _replay: Option<&[String]>) {
     ctx.emit("c20 girth dvbs2 1/2 normal", o.stdout.trim(), true, &["girth"]);
     // ---------------------------------------------------------------- systematic, peg, mackay-neal: stdout = library result
     for k in 0..ctx.scale(30, 300) {
-        let (h, _) = crate::c02::gen_h(&mut rng, 8, 16);
+        let (mut h, _) = crate::c02::gen_h(&mut rng, 8, 16);
+        if k % 4 == 3 {
+            // full rank with the pivots packed to the left: [I | P] with the last row of P zero, or a square identity-like matrix
+            let r = rng.range(1, 6);
+            let n = if rng.chance(1, 3) { r } else { r + rng.range(1, 6) };
+            h = SparseMatrix::new(r, n);
+            for j in 0..r {
+                h.insert(j, j);
+                if j + 1 < r { for c in r..n { if rng.chance(1, 2) { h.insert(j, c); } } }
+            }
+        }
         let path = format!("{}/sys{}.alist", dir, k);
         std::fs::write(&path, if rng.chance(1, 2) { h.alist() } else { h.alist_no_padding() }).unwrap();
         let o = run_bin(&bin, &["systematic", &path]);
@@ -212,6 +222,9 @@ pub fn run(ctx: &mut Ctx, _replay: Option<&[String]>) {
         ("encode-alist-row-index-between-nrows-and-ncols", vec!["encode", &rowidx, &inp, &outp]),
         ("encode-bad-pattern", vec!["encode", &good, &inp, &outp, "--puncturing", "1,,0"]),
         ("encode-pattern-item-with-leading-zero", vec!["encode", &good, &inp, &outp, "--puncturing", "01,1,1,0"]),
+        ("encode-pattern-trailing-comma", vec!["encode", &good, &inp, &outp, "--puncturing", "1,1,1,0,"]),
+        ("encode-pattern-empty-string", vec!["encode", &good, &inp, &outp, "--puncturing", ""]),
+        ("ber-pattern-trailing-comma", vec!["ber", &good, "--min-ebn0", "1", "--max-ebn0", "2", "--step-ebn0", "1", "--puncturing", "1,1,1,0,"]),
         ("encode-pattern-item-with-plus-sign", vec!["encode", &good, &inp, &outp, "--puncturing", "+1,1,1,0"]),
         ("ber-pattern-item-double-zero", vec!["ber", &good, "--min-ebn0", "1", "--max-ebn0", "2", "--step-ebn0", "1", "--puncturing", "1,1,1,00"]),
         ("encode-pattern-not-dividing", vec!["encode", &good, &inp, &outp, "--puncturing", "1,1,1,1,0"]),
